@@ -600,7 +600,8 @@ class StreamResultRouter(StreamResult):
         if not policy_method:
             raise ValueError(f"bad policy {policy!r}")
         policy_method(self, sink, **policy_args)
-        if do_start_stop_run:
+        if do_start_stop_run and not any(s is sink for s in self._sinks):
+            # A sink serving several rules is started and stopped once.
             self._sinks.append(sink)
             if self._in_run:
                 sink.startTestRun()
